@@ -99,6 +99,9 @@ type c18Case struct {
 	// OSLike: the layers answer like a directory of the operating system: a path below a regular
 	// file fails with ENOTDIR ("not a directory"), not with fs.ErrNotExist
 	OSLike bool `json:"oslike,omitempty"`
+	// Kids > 0: the nested part: Kids overlays built from one parent overlay that wraps an overlay of Depth layers
+	Kids  int `json:"kids,omitempty"`
+	Depth int `json:"depth,omitempty"`
 }
 
 // osLikeFS wraps a layer: looking up a path whose parent is a regular file reports ENOTDIR.
@@ -226,7 +229,71 @@ func (m *c18Model) mixed(p string) bool {
 	return false
 }
 
+// runNested: overlays built on overlays, several of them from one parent: each must serve its own
+// layers, whatever else was built from the same parent before or after it.
+func (c *c18Case) runNested(ctx *core.Ctx) {
+	ctx.NonTrivial()
+	layer := func(i int) fstest.MapFS {
+		m := fstest.MapFS{}
+		mt := time.Date(2022, 1, 1+i, 0, 0, 0, 0, time.UTC)
+		name := string(rune('a' + i))
+		m[name+".txt"] = &fstest.MapFile{Data: []byte("only " + name), ModTime: mt, Mode: 0o644}
+		m["shared.txt"] = &fstest.MapFile{Data: []byte("shared " + name), ModTime: mt, Mode: 0o644}
+		return m
+	}
+	// parent = overlay of (overlay of Depth base layers) plus one more; Kids children, each adding one layer
+	var base []fs.FS
+	for i := 0; i < c.Depth; i++ {
+		base = append(base, layer(i))
+	}
+	inner := vuego.NewOverlayFS(base[0], base[1:]...)
+	parentLayers := append(append([]fs.FS{}, base...), layer(c.Depth))
+	parent := vuego.NewOverlayFS(inner, layer(c.Depth))
+	type kid struct {
+		o      *vuego.OverlayFS
+		layers []fs.FS
+	}
+	var kids []kid
+	for k := 0; k < c.Kids; k++ {
+		extra := layer(c.Depth + 1 + k)
+		kids = append(kids, kid{vuego.NewOverlayFS(parent, extra), append(append([]fs.FS{}, parentLayers...), extra)})
+	}
+	check := func(name string, o *vuego.OverlayFS, layers []fs.FS) {
+		ctx.Eval(1)
+		m := &c18Model{layers: layers}
+		want, _, _ := m.readDir(".")
+		got, err := o.ReadDir(".")
+		if err != nil || strings.Join(names(got), ",") != strings.Join(want, ",") {
+			ctx.Violation("nested", name, "wrong-listing", fmt.Sprintf("depth %d, %d children: %s lists %v (err %v), its layers have %v", c.Depth, c.Kids, name, names(got), err, want))
+			return
+		}
+		for _, e := range want {
+			p, _, _ := strings.Cut(e, ":")
+			var wantData []byte
+			for _, l := range layers {
+				if b, err := fs.ReadFile(l, p); err == nil {
+					wantData = b
+					break
+				}
+			}
+			if b, err := fs.ReadFile(o, p); err != nil || string(b) != string(wantData) {
+				ctx.Violation("nested", name, "wrong-content", fmt.Sprintf("depth %d, %d children: %s serves %s = %q (err %v), want %q", c.Depth, c.Kids, name, p, b, err, wantData))
+				return
+			}
+		}
+	}
+	check("parent", parent, parentLayers)
+	for i, k := range kids {
+		check(fmt.Sprintf("child-%d-of-%d", i, len(kids)), k.o, k.layers)
+	}
+	ctx.Outcome(fmt.Sprint(c.Depth, c.Kids))
+}
+
 func (c *c18Case) Run(ctx *core.Ctx) {
+	if c.Kids > 0 {
+		c.runNested(ctx)
+		return
+	}
 	var stack []fs.FS
 	m := &c18Model{}
 	nils := 0
@@ -547,7 +614,7 @@ func init() {
 		Level: "exploration",
 		Rule: "every stack of <=3 layers (nil layers in any position) over a layer table in which each of a, d, d/x, d/y, e is absent / file / (empty) directory, optionally with a sibling directory d-z (whose path sorts before d/ although its name sorts after d); " +
 			"per stack: ReadFile+Stat on 10 paths, ReadDir on 5 directories (names, types and each entry's size/mode/mtime against the first layer that has it), 6 glob patterns, one WalkDir; compared with a reference union model; " +
-			"plus wide directories: 1..N entries spread over 2-3 layers in 4 membership patterns (listings beyond the small-input regime of the sort). " +
+			"plus overlays built on overlays: 1..3 children made from one parent that wraps an overlay of 1..9 layers, each child checked against its own layers after all were built; plus wide directories: 1..N entries spread over 2-3 layers in 4 membership patterns (listings beyond the small-input regime of the sort). " +
 			"non-trivial = stack with at least two non-nil layers; distinct = distinct layer-index vectors",
 		Bounds: map[string]string{
 			"quick":    "wide N<=20; all stacks of <=2 layers over 48 layer configs + nil; 3-layer stacks over a 12-config subset + nil",
@@ -581,6 +648,11 @@ func init() {
 					for n := 1; n <= maxN; n++ {
 						emit(&c18Case{Wide: &c18Wide{N: n, NL: nl, Pattern: pat}})
 					}
+				}
+			}
+			for depth := 1; depth <= 9; depth++ {
+				for kids := 1; kids <= 3; kids++ {
+					emit(&c18Case{Kids: kids, Depth: depth})
 				}
 			}
 			// layers that answer like OS directories (ENOTDIR below a file), stacks of 2
